@@ -41,6 +41,10 @@ Proof. exact match_sat. Qed.
 Theorem C11_no_error : forall C objcls M T l dom, F11lax C objcls T l = true -> run_raises C M T l dom = false.
 Proof. exact no_error. Qed.
 
+(* ... and resolving the pattern raises nothing (every keyword is a field of the declared class) *)
+Theorem C11_no_build_error : forall C objcls T l, F11lax C objcls T l = true -> build_raises C T l = false.
+Proof. exact no_build_error. Qed.
+
 (* whatever the pattern: in a world without None (the object 0) no attribute access fails *)
 Theorem C11_no_attr_error : forall C M T l dom, no_none M dom -> run_araises C M T l dom = false.
 Proof. exact no_attr_error. Qed.
@@ -52,6 +56,7 @@ Proof. exact true_envs_seq. Qed.
 (* the flag the harness computes on a concrete case implies every hypothesis of C11_match: each case counted as
    "inside F11" is an instance of the theorem *)
 Theorem C11_fragment_flag : forall c : mcase, in_F c = true ->
+  build_raises (case_cmodel c) (c_T c) (c_pat c) = false /\
   run_araises (case_cmodel c) (case_world c) (c_T c) (c_pat c) (c_dom c) = false /\
   run_raises (case_cmodel c) (case_world c) (c_T c) (c_pat c) (c_dom c) = false /\
   forall o, In o (run (case_cmodel c) (case_world c) (c_T c) (c_pat c) (c_dom c)) <->
@@ -80,6 +85,7 @@ Theorem C11_vacuous_keyword : forall C objcls M oc p a t o d xs,
   matches_attr (sub C) M (PMatch (Pat t ANil)) (VLO xs) = negb (match xs with [] => true | _ => false end).
 Proof. exact vacuous_keyword. Qed.
 Theorem C11_fragment_flag_lax : forall c : mcase, in_Flax c = true ->
+  build_raises (case_cmodel c) (c_T c) (c_pat c) = false /\
   run_araises (case_cmodel c) (case_world c) (c_T c) (c_pat c) (c_dom c) = false /\
   run_raises (case_cmodel c) (case_world c) (c_T c) (c_pat c) (c_dom c) = false /\
   forall o, In o (run (case_cmodel c) (case_world c) (c_T c) (c_pat c) (c_dom c)) <->
@@ -97,11 +103,14 @@ Theorem C11_refuted_letvalue :
   in_F w_kf_letvalue = false /\ model_out w_kf_letvalue = SL [SZ (-1); SZ 940] /\ spec_out w_kf_letvalue = SL [SZ 5].
 Proof. exact refuted_letvalue. Qed.
 
-(* C11-g: a nested match of the declared type with a keyword constraint over a None-valued Optional attribute raises
-   AttributeError (outcome [-1; 1470]) where the Spec simply does not match that element *)
-Theorem C11_refuted_nonevalue :
-  in_F w_kf_nonevalue = false /\ model_out w_kf_nonevalue = SL [SZ (-1); SZ 1470] /\ spec_out w_kf_nonevalue = SL [SZ 3].
-Proof. exact refuted_nonevalue. Qed.
+(* C11-h: a collection attribute of builtin values is compared as a scalar *)
+Theorem C11_refuted_builtin_collection :
+  in_F w_kf_builtincoll = false /\ model_out w_kf_builtincoll = SL [] /\ spec_out w_kf_builtincoll = SL [SZ 4].
+Proof. exact refuted_builtin_collection. Qed.
+(* C11-i: a nested match of a narrower type cannot constrain an attribute only the subtype has *)
+Theorem C11_refuted_subtype_attribute :
+  in_F w_kf_subattr = false /\ model_out w_kf_subattr = SL [SZ (-1); SZ 2129] /\ spec_out w_kf_subattr = SL [SZ 4].
+Proof. exact refuted_subtype_attribute. Qed.
 
 (* ---- repaired defects: the former witnesses are inside F11 and answered as the Spec says ---- *)
 (* C11-a (ded4892): value-equal collections no longer collapse *)
@@ -123,6 +132,10 @@ Theorem C11_fixed_unrelated_type :
   in_F w_fixed_unrelated = true /\ model_out w_fixed_unrelated = SL [] /\ spec_out w_fixed_unrelated = SL [].
 Proof. exact fixed_unrelated_type. Qed.
 
+(* C11-g (5008deb): a nested match on an Optional attribute does not match None and raises nothing *)
+Theorem C11_fixed_nonevalue : model_out w_fixed_nonevalue = SL [SZ 3] /\ spec_out w_fixed_nonevalue = SL [SZ 3].
+Proof. exact fixed_nonevalue. Qed.
+
 (* non-vacuity: a depth-3 pattern inside F11 (type narrowing through a collection, match_any after a binding
    condition, a second keyword at the root) whose answer is one of three racks *)
 Example C11_nonvacuous : in_F w_ok = true /\ model_out w_ok = SL [SZ 6] /\ spec_out w_ok = SL [SZ 6].
@@ -138,6 +151,7 @@ Print Assumptions C11_match.
 Print Assumptions C11_rows.
 Print Assumptions C11_match_sat.
 Print Assumptions C11_no_error.
+Print Assumptions C11_no_build_error.
 Print Assumptions C11_no_attr_error.
 Print Assumptions C11_and_chain.
 Print Assumptions C11_fragment_flag.
@@ -148,8 +162,10 @@ Print Assumptions C11_vacuous_keyword.
 Print Assumptions C11_fragment_flag_lax.
 Print Assumptions C11_refuted_empty_nested.
 Print Assumptions C11_refuted_letvalue.
-Print Assumptions C11_refuted_nonevalue.
+Print Assumptions C11_refuted_builtin_collection.
+Print Assumptions C11_refuted_subtype_attribute.
 Print Assumptions C11_fixed_any_dedup.
 Print Assumptions C11_fixed_empty_list.
 Print Assumptions C11_fixed_exists_first.
 Print Assumptions C11_fixed_unrelated_type.
+Print Assumptions C11_fixed_nonevalue.
